@@ -491,6 +491,31 @@ func exhaustiveRing(o *hlib.Out) {
 	o.Extra["exhaustive_ring_histories"] = fmt.Sprintf("all %d histories of 1..4 operations over an alphabet of %d operations", n, len(alpha))
 }
 
+// the event debouncer's buffer: n frames into one window, what flush hands to the callback
+func windowCases(o *hlib.Out) {
+	cap := gocql.VerifC16EventBufferSize
+	for _, n := range []int{0, 1, 2, cap - 1, cap, cap + 1, cap + 500, 3 * cap} {
+		got := gocql.VerifC16EventWindow(n)
+		xs := make([]int64, len(got))
+		for i, g := range got {
+			xs[i] = int64(g)
+		}
+		idx := o.Case("event-window", n > 0, fmt.Sprintf("CWindow %s %s", hlib.Nat(n), hlib.ZListI(xs)))
+		// the property's "bounded": never more than the buffer size per window, nothing lost below it, order kept
+		want := n
+		if want > cap {
+			want = cap
+		}
+		ok := len(got) == want
+		for i, g := range got {
+			ok = ok && g == i
+		}
+		if !ok {
+			o.Violate(idx, "event-window", "", fmt.Sprintf("%d frames in one window: %d delivered (expected the first %d in order)", n, len(got), want), nil)
+		}
+	}
+}
+
 func main() {
 	o := hlib.Init("C16")
 	// hlib.NewRng(seed) starts splitmix64 at seed*G and steps by G: the streams of consecutive seeds are the same
@@ -505,9 +530,12 @@ func main() {
 		"disabled event classes; 11 scripted ring histories and 11 scripted session histories at the boundaries; one real-time burst of 62 EVENT " +
 		"frames through the wire and both debouncers (monitor only); distinct = distinct Coq case term; non-trivial = a history of more than one step"
 
-	var finishBurst func()
+	var finishBurst, finishCluster func()
 	if o.Only < 0 {
 		finishBurst = burstTest(o)
+	}
+	if !o.Search {
+		finishCluster = clusterScenarios(o)
 	}
 	hostFnsCases(o, g, 300*o.Scale)
 	for _, h := range scriptedRingHistories() {
@@ -524,12 +552,16 @@ func main() {
 	if o.Tier == "thorough" && !o.Search {
 		exhaustiveRing(o)
 	}
+	windowCases(o)
 	scriptedSessions(o)
 	for i := 0; i < 250*o.Scale; i++ {
 		g.randomSession(o)
 	}
 	if finishBurst != nil {
 		finishBurst()
+	}
+	if finishCluster != nil {
+		finishCluster()
 	}
 	o.Finish("From GocqlV Require Import Lib.Base C16.ZMap C16.Model C16.Corr.", "C16.Corr.case", "C16.Corr.run")
 }
